@@ -134,7 +134,15 @@ func (c *cluster) pollTasks() {
 					c.fail("client-semantics", "read-wrong-result", "read on node %d returned %v", pt.nid, res)
 					continue
 				}
-				if rr.Len > len(l.updIDs) {
+				if n := c.nodes[pt.nid]; rr.Len > len(l.updIDs) && (n == nil || n.status != nodeUp || n.inc != pt.inc) {
+					// answered by an incarnation that died in this very step: what it had
+					// committed last was never observed
+					c.stats.class("read-unverifiable")
+				} else if rr.Len > len(l.updIDs) && l.contigCommit < l.maxCommit {
+					// the commit ledger has a gap (entries committed and compacted between two
+					// observations): the claim cannot be judged
+					l.unobservedCommit++
+				} else if rr.Len > len(l.updIDs) {
 					c.fail("client-semantics", "read-uncommitted", "%s on node %d saw %d commands, only %d are committed", pt.kind, pt.nid, rr.Len, len(l.updIDs))
 				} else if hashIDs(l.updIDs[:rr.Len]) != rr.Hash {
 					c.fail("client-semantics", "read-not-prefix", "%s on node %d saw %d commands that are not the committed prefix", pt.kind, pt.nid, rr.Len)
